@@ -6,6 +6,7 @@ One scenario = one line: `c<ttl>:<authTtl> <step> ...` with steps
     r<k>                                                       the helper answers its k-th lookup of this scenario honestly (OK iff the
                                                                password it was asked about is "pw-"+user; ERR otherwise)
     t<seconds>                                                 let squid_curtime advance
+    g                                                          (instances with authenticate_ttl <gc>, garbage interval 1 s) a cache clean-up has run
 The harness is *scripted but blind*: it does not know what Squid should do.  It learns what Squid did from positive signals only:
 the client's response, the origin's arrival record, the line the helper received, and Squid's own debug trace (sections 29 and 84
 in cache.log, which the rebuilt binary writes unbuffered): `CreateAuthUser: header = '…'`, `initialised request 0x…`,
@@ -113,6 +114,7 @@ CONF = """auth_param basic program {relay} {ctl}
 auth_param basic children 1 startup=1 idle=1 concurrency=2000
 auth_param basic realm verif
 {ttl}auth_param basic key_extras "%{{X-Sc}}>h"
+{gc}
 acl authed proxy_auth REQUIRED
 cache deny all
 debug_options ALL,1 29,9 84,9
@@ -122,10 +124,12 @@ access_log stdio:{{dir}}/c46.log c46
 
 
 class Instance:
-    def __init__(self, stage, relay, ttl, idx):
+    def __init__(self, stage, relay, ttl, idx, gc=0):
         self.ttl = ttl
+        self.gc = gc
         self.ctl = Control(os.path.join(stage.work, "c46-ctl-%d-%d.sock" % (os.getpid(), idx)))
-        conf = CONF.format(relay=relay, ctl=self.ctl.path, ttl=("auth_param basic credentialsttl %d seconds\n" % ttl) if ttl else "")
+        conf = CONF.format(relay=relay, ctl=self.ctl.path, ttl=("auth_param basic credentialsttl %d seconds\n" % ttl) if ttl else "",
+                           gc=("authenticate_ttl %d seconds\nauthenticate_cache_garbage_interval 1 second\n" % gc) if gc else "")
         self.squid = rig.Squid(stage, conf=conf, access="http_access allow authed\nhttp_access deny all\n")
         self.logpath = os.path.join(self.squid.dir, "cache.log")
         self.sentinel = None
@@ -232,6 +236,13 @@ class Scenario:
         self.T = 12 * rig.VERIF_SLOW
 
     # ---- pieces
+    def seg_limit(self):
+        """longest run of steps between two clock steps for which "no time passes" is a sound reading of the scenario"""
+        lim = self.inst.ttl
+        if self.inst.gc:
+            lim = min(lim, self.inst.gc)
+        return max(1.0, lim - 2.5)
+
     def fail(self, what):
         return "abort:" + what
 
@@ -291,7 +302,7 @@ class Scenario:
             return "bad-op"
         steps = toks[1:]
         for s in steps:
-            if not re.fullmatch(r"a\d+:\d+:(\.|-|[0-9a-f]+)|r\d+|t\d+", s):
+            if not re.fullmatch(r"a\d+:\d+:(\.|-|[0-9a-f]+)|r\d+|t\d+|g", s):
                 return "bad-op"
         if not inst.squid.alive():
             return "abort:squid-died"
@@ -308,17 +319,43 @@ class Scenario:
         if not inst.settle(oport):
             return self.fail("no-sentinel")
         off = inst.log_size()
+        gc_off = off
         seg_start = time.time()
         slow = False
         try:
             for s in steps:
                 if s[0] == "t":
                     d = int(s[1:])
-                    if time.time() - seg_start > max(1.0, inst.ttl - 2.5) and inst.ttl:
+                    if inst.ttl and time.time() - seg_start > self.seg_limit():
                         slow = True
                     time.sleep(d + 0.15)
                     seg_start = time.time()
                     out.append(s)
+                    continue
+                if s == "g":
+                    if not inst.gc:
+                        return "bad-op"
+                    # a clean-up that ran after this point has seen the current clock; the evictions of all clean-ups since the
+                    # previous `g` (they run every second) are this step's observation
+                    mark = off
+                    t0 = time.time()
+                    seen = ""
+                    while time.time() - t0 < 3.0 * rig.VERIF_SLOW:
+                        text, mark = inst.log_from(mark)
+                        seen += text
+                        if "Cleanup: checkpoint" in seen:
+                            break
+                        time.sleep(0.05)
+                    if not inst.settle(oport):
+                        return self.fail("no-sentinel")
+                    text, off = inst.log_from(gc_off)
+                    gc_off = off
+                    ev = set()
+                    for l in text.split("\n"):
+                        mm = re.search(r"cleanup: evicting (.*):%s$" % re.escape(salt), l)
+                        if mm:
+                            ev.add(hx(mm.group(1).encode("latin-1")))
+                    out.append("g[%s]" % ",".join(sorted(ev)))
                     continue
                 if s[0] == "a":
                     t_, c_, h_ = s[1:].split(":")
@@ -450,7 +487,7 @@ class Scenario:
                         self.wait_response(tg)
                         toks_r.append("%d=@%d" % (tg, tg))
                 out.append("r%d:%s[%s]" % (k, "o" if ok else "e", ",".join(toks_r)))
-            if inst.ttl and time.time() - seg_start > max(1.0, inst.ttl - 2.5):
+            if inst.ttl and time.time() - seg_start > self.seg_limit():
                 slow = True
         finally:
             pass
@@ -506,7 +543,7 @@ class Scenario:
 class E2E:
     """pool of Squid instances; scenarios are spread over worker threads, one scenario at a time per instance"""
 
-    def __init__(self, stage, n_default=4, ttls=(6, 6)):
+    def __init__(self, stage, n_default=4, ttls=((6, 0), (6, 0), (6, 5), (6, 5))):
         self.stage = stage
         self.origin = rig.Origin()
         self.lock = threading.Lock()
@@ -518,9 +555,9 @@ class E2E:
         for _ in range(n_default):
             idx += 1
             self.instances.append(Instance(stage, relay, 0, idx))
-        for t in ttls:
+        for t, g in ttls:
             idx += 1
-            self.instances.append(Instance(stage, relay, t, idx))
+            self.instances.append(Instance(stage, relay, t, idx, gc=g))
         # squid is started from the main thread only; all instances are launched first and awaited together
         for i in self.instances:
             i.launch()
@@ -535,7 +572,7 @@ class E2E:
         for i in self.instances:
             if not i.ready() or i.squid.proc.poll() is not None:
                 i.start()
-            self.pools.setdefault(i.ttl, []).append(i)
+            self.pools.setdefault((i.ttl, i.gc), []).append(i)
 
     def squids(self):
         return [i.squid for i in self.instances]
@@ -550,8 +587,8 @@ class E2E:
             return "abort:io-error:" + type(e).__name__
 
     def ttl_of(self, line):
-        m = re.match(r"c(\d+):", line)
-        return int(m.group(1)) if m else 0
+        m = re.match(r"c(\d+):(\d+)", line)
+        return (int(m.group(1)), int(m.group(2))) if m else (0, 0)
 
     def run(self, lines, retry=None):
         """-> outputs; `retry(line, out)` says whether a scenario must be run again (flake guard)"""
